@@ -5,6 +5,16 @@ HERE = os.path.dirname(os.path.abspath(__file__))
 ALL = ["C%02d" % i for i in range(1, 19)]
 
 CHECKS = {
+ "C13": dict(
+   technique="TLA+ model XtCli of main.rs model-checked with TLC over all argument vectors of bounded length; every vector replayed on the real debug/release binaries (pipe, file, pty)",
+   text="TLC explores the model of the command line (lexopt's left-to-right parsing, terminal guard, per-input loop, bail paths) for every argument vector of up to 3 tokens over the option/operand vocabulary and checks the exit-status and stream-discipline invariants in every state; each vector, with the predicted exit status, stdout content, stderr class and named input, is executed on the real binaries with real files and compared.",
+   note="Vocabulary of 22 (quick) / 36 (thorough) tokens; what the library does for each content is measured, not modelled. Unreadable = missing file or directory (the sandbox runs as root).",
+   design_ref="DESIGN.md 4.8, 6 (C13)"),
+ "C14": dict(
+   technique="TLA+ model XtCli (format resolution) model-checked with TLC; every argument vector replayed on the real binaries and stdout compared with the in-process library result for the resolved format",
+   text="For every argument vector of up to 3 (thorough: 4) tokens over a vocabulary of -f forms, extension spellings (letter case, multi-dot, hidden file, none, misleading), '-' and targets, XtCli predicts the source selection of each input (-f, then extension, then detection) and that stdin is read at most once; the real binaries' stdout must equal the library's output for that selection on the same bytes.",
+   note="FIFO operands are not yet in the vocabulary; regular files are memory-mapped (slice), standard input is a reader.",
+   design_ref="DESIGN.md 4.8, 6 (C14)"),
  "C04": dict(
    technique="TLC-enumerated token sequences (XtTokens) plus adversarial and mutated inputs executed in crash-isolated workers and through both binaries; every recorded call validated by TLC against the totality contract XtTotal",
    category="model_checking",
